@@ -17,6 +17,8 @@ def run(ctx):
     ctx.uses('simulator', 'simevent', 'eventlist')
     ctx.trust('C01 (pop_first returns the minimum of the pending events)')
     ctx.assume('user handlers reach the simulator only through its public methods')
+    # first: state shared between simulator / event-list objects (reported even when later anchors vanish because of it)
+    S.shared_state(ctx, None, 'R2.8')
     sc = S.SimCtx(ctx.prog)
     S.r21_typestate(ctx, sc)
     S.r23_admission(ctx, sc)
@@ -29,4 +31,3 @@ def run(ctx):
     # ... and ties are broken by the priority / creation order the events were given (shared rules with C01)
     c01.r13_key_immutable(ctx)
     c01.r14_counter(ctx)
-    c01.r17_shared(ctx)
